@@ -3,9 +3,14 @@
 //
 //	sygx <Cxx>|all
 //
-// Each property registers an extractor in its own file (c14.go, …). An extractor that cannot find its
-// anchor writes a Lean file in which the corresponding definition is `none` / the empty list, so that the
-// obligation about it fails to check (reported by bin/check as a broken obligation, not by itself a violation).
+// Each property registers an extractor in its own file (c14.go, …). Facts have three states:
+//   located + translated : the generated definition is `some <term>`; its obligation in Oblig/Cxx.lean must hold
+//                          (stated semantically — an equivalent re-spelling of the source still satisfies it)
+//   unavailable          : the anchor is not found or not of a shape the translator understands (o.Unavailable):
+//                          the definition is `none`, the obligation is vacuous, bin/check prints T-TIE-UNAVAILABLE and
+//                          the correspondence check carries the property alone — not a violation
+//   located + different  : the obligation fails to check => bin/check reports it (VIOLATION … no-failing-input-found
+//                          unless the correspondence also finds a failing input)
 package main
 
 import (
@@ -31,6 +36,24 @@ type Out struct {
 }
 
 type Extractor func(o *Out)
+
+// Unavailable records that the anchor of a fact could not be located in the current source, or has a shape the
+// translator does not understand (a helper was extracted, a loop restructured …). The generated definition for such a
+// fact is `none` (see LeanOpt) and its obligation holds vacuously: the T-tie for this fact is reported as unavailable by
+// bin/check (line `T-TIE-UNAVAILABLE: …`, evidence `generated_facts.unavailable`) and the correspondence check carries
+// the property alone. This is NOT a violation. A fact that IS located and translated must satisfy its obligation.
+func (o *Out) Unavailable(fact, why string) {
+	l, _ := o.Facts["unavailable"].([]string)
+	o.Facts["unavailable"] = append(l, fact+": "+why)
+}
+
+// LeanOpt renders an optional Lean term: `some (<term>)` when ok, `none` otherwise.
+func LeanOpt(ok bool, term string) string {
+	if !ok {
+		return "none"
+	}
+	return "some (" + term + ")"
+}
 
 var extractors = map[string]Extractor{}
 
